@@ -119,6 +119,8 @@ func clusterRun(f []string) string {
 	}
 	of, om := redis.VerifSetRefreshTimers(10*time.Second, minRate)
 	defer redis.VerifSetRefreshTimers(of, om)
+	// (a refresh round gives up after 5 s in the product: scripts with a frozen node — Q<n> — would take minutes)
+	defer redis.VerifSetRefreshTimeout(redis.VerifSetRefreshTimeout(150 * time.Millisecond))
 	fc, err := hx.NewFakeCluster(nodes)
 	if err != nil {
 		return "sockerr"
@@ -252,7 +254,7 @@ func clusterRun(f []string) string {
 				}
 				args = append(args, clusterKey(kv[0]), v)
 			}
-		case 'X', 'U', 'Z', 'F', 'H':
+		case 'X', 'U', 'Z', 'F', 'H', 'Q':
 			n, ok := nodeArg(body)
 			if !ok {
 				return "bad-op"
@@ -260,6 +262,9 @@ func clusterRun(f []string) string {
 			switch t[0] {
 			case 'X':
 				fc.Nodes[n].Down()
+			case 'Q':
+				// the node freezes: it keeps its connections and its port, reads, and answers nothing any more
+				fc.Delay(n, time.Hour)
 			case 'H':
 				if err := fc.Nodes[n].Hang(); err != nil {
 					return "sockerr"
